@@ -97,8 +97,26 @@ def _run_case(sub, spec, ctx):
         sub.check(spec, ctx)
     except KnownSkip:
         pass
-    except (Violation, HarnessError, ValueError, AssertionError, MemoryError):
-        raise  # ValueError (incl. pydantic's) is what input validation raises: a spec that builds no valid input is the harness's problem
+    except (Violation, HarnessError, AssertionError, MemoryError):
+        raise
+    except ValueError as e:
+        # ValueError (incl. pydantic's) is what input validation raises: a spec that builds no valid input is the harness's problem -
+        # unless the check had handed its (valid) input to a library FUNCTION (io.save, a conversion, an evaluation task ...) outside a
+        # `ctx.call`, i.e. the first frame below the check's own frames is library code other than the data models' validators: then
+        # the library rejected, half-way through, what the check built as valid.
+        import traceback as _tb
+
+        frames = _tb.extract_tb(e.__traceback__)
+        norm = [f.filename.replace("\\", "/") for f in frames]
+        last_verif = max((i for i, fn in enumerate(norm) if "/verif/" in fn), default=-1)
+        below = norm[last_verif + 1 :]
+        if not below or "/soundevent/" not in below[0] or "/soundevent/data/" in below[0]:
+            raise
+        where = frames[last_verif + 1]
+        return ctx.fail(
+            f"{type(e).__name__}: {str(e)[:200]} raised by {os.path.basename(where.filename)}:{where.lineno} {where.name} on an input the check built as valid",
+            spec, repr(e)[:300], "no exception", kind="raised_in_library",
+        )
     except Exception as e:
         # A TypeError / KeyError / AttributeError / IndexError / OSError ... raised INSIDE the library, on an input the check built and
         # treats as valid, in a call the check did not expect to fail: the library broke, not the harness.
